@@ -64,6 +64,7 @@ struct Log {
 
 // configuration for the next parallel region / task graph
 void configure(int threads, int policy, uint64_t seed);
+int configuredThreads();
 const Log& lastLog();
 long currentTask();      // id of the task the calling thread is executing, -1 outside tasks
 long currentWorker();    // worker id of the calling thread (0 = master / outside)
